@@ -69,14 +69,27 @@ func genGuard(p *pkgInfo, l *leanFile) {
 		}
 		sort.Strings(keys)
 		type ent struct{ name, sk string }
-		var funcs, helpers []ent
-		for _, k := range keys {
+		// Helpers that expect the mutex to be held by their caller: the configured ones plus
+		// every UNEXPORTED function that touches the state and never locks the family's mutex
+		// (so that extracting such a helper is not an alarm; an exported function must lock).
+		// Fixpoint: a function may touch the state only through helper calls.
+		helperSet := map[string]bool{}
+		for _, h := range fam.helpers {
+			helperSet[h] = true
+		}
+		simple := func(k string) string {
+			if i := strings.LastIndex(k, "."); i >= 0 {
+				return k[i+1:]
+			}
+			return k
+		}
+		render := func(k string) (norm string, touches, locks bool) {
 			sk, _ := p.skeleton(k, fam.state...)
-			touches := false
-			norm := actRE.ReplaceAllStringFunc(sk, func(m string) string {
+			norm = actRE.ReplaceAllStringFunc(sk, func(m string) string {
 				name := actRE.FindStringSubmatch(m)[1]
 				switch {
 				case hasSuffixAny(name, fam.lock):
+					locks = true
 					return `(.act "lock")`
 				case hasSuffixAny(name, fam.unlock):
 					return `(.act "unlock")`
@@ -85,24 +98,37 @@ func genGuard(p *pkgInfo, l *leanFile) {
 					touches = true
 					return `(.act "access")`
 				}
-				for _, h := range fam.helpers {
-					if name == h || strings.HasSuffix(name, "."+h) {
-						touches = true
-						return `(.act "access")`
-					}
+				if helperSet[simple(name)] {
+					touches = true
+					return `(.act "access")`
 				}
 				return m
 			})
+			return
+		}
+		for iter := 0; iter < 4; iter++ {
+			grew := false
+			for _, k := range keys {
+				sn := simple(k)
+				if helperSet[sn] || sn == "" || (sn[0] >= 'A' && sn[0] <= 'Z') {
+					continue
+				}
+				if _, touches, locks := render(k); touches && !locks {
+					helperSet[sn] = true
+					grew = true
+				}
+			}
+			if !grew {
+				break
+			}
+		}
+		var funcs, helpers []ent
+		for _, k := range keys {
+			norm, touches, _ := render(k)
 			if !touches {
 				continue
 			}
-			isHelper := false
-			for _, h := range fam.helpers {
-				if k == h || strings.HasSuffix(k, "."+h) {
-					isHelper = true
-				}
-			}
-			if isHelper {
+			if helperSet[simple(k)] {
 				helpers = append(helpers, ent{k, norm})
 			} else {
 				funcs = append(funcs, ent{k, norm})
